@@ -93,66 +93,9 @@ const PYLINES: &[&str] = &[
     "y = {**a, 'k': v}",
 ];
 
-/// Rare size classes: a very long line, very many lines, a text beyond 2^16 bytes — the places
-/// where a narrow integer, a threshold or a chunked scan would show.
-fn gen_big_text(r: &mut Rng) -> String {
-    let mut text = String::new();
-    if r.chance(1, 5) {
-        text.push('\u{feff}');
-    }
-    let eols = ["\n", "\r\n", "\r"];
-    match r.below(4) {
-        0 => {
-            // one very long line (300..3000 columns) between two short ones
-            text.push_str("a = 1");
-            text.push_str(eols[r.below(3) as usize]);
-            let unit = *r.pick(&["x", "ab ", "é", "xy→", "0123456789"]);
-            for _ in 0..r.range(300, 3000) {
-                text.push_str(unit);
-            }
-            text.push_str(eols[r.below(3) as usize]);
-            text.push_str("b = é");
-        }
-        1 => {
-            // very many short lines (300..1500), every now and then a non-ASCII one
-            let e = r.below(4);
-            for i in 0..r.range(300, 1500) {
-                text.push_str(if i % 97 == 13 { "é = 1" } else if i % 5 == 0 { "" } else { "x" });
-                text.push_str(eols[if e < 3 { e as usize } else { (i % 3) as usize }]);
-            }
-        }
-        2 => {
-            // beyond 2^16 bytes in total, with rows beyond 2^8 and one line beyond 2^16 columns
-            for i in 0..300u32 {
-                text.push_str(if i == 270 { "ü" } else { "y" });
-                text.push_str(eols[(i % 3) as usize]);
-            }
-            for _ in 0..66_000 {
-                text.push('z');
-            }
-            text.push_str("é\n");
-            text.push_str("tail");
-        }
-        _ => {
-            // power-of-two boundaries: lines of exactly 127/128/255/256 bytes
-            for n in [127usize, 128, 255, 256, 129, 257] {
-                for _ in 0..n - 1 {
-                    text.push('q');
-                }
-                text.push_str(if r.chance(1, 3) { "\r\n" } else { "\n" });
-            }
-        }
-    }
-    text
-}
-
-pub fn gen_big_text_pub(r: &mut Rng) -> String {
-    gen_big_text(r)
-}
-
 pub fn gen_text(r: &mut Rng, scale: u32) -> String {
     if r.chance(1, 4000) {
-        return gen_big_text(r);
+        return crate::bigtext::gen_big_text(r);
     }
     let style = r.below(100);
     let mut text = String::new();
